@@ -39,6 +39,9 @@ def local_names(t, ev):
 SCHEMA_FNS = {"get_next_token", "generate_ast", "function_static_arguments", "function_arguments", "find_item_list", "check_paren",
               "get_enclosed_elements_with_impl_mult", "implicit_multiply", "convert_token_to_node", "parse_number", "parse", "new"}
 
+# utils functions the rules know by name (the superscript scanner and its digit map: C03-d, C13)
+UTILS_NAMED = {"deserialize_superscript_number", "superscript_digit_to_digit"}
+
 # helpers the rules know by name (compared as functions in their own right: C10, C11)
 NAMED_HELPERS = {"eval_i64": {"gcd", "lcm"}, "eval_f64": {"gamma"}, "eval_number": {"gamma"}, "eval_decimal": {"gamma", "lambert_w", "ilog"}, "eval_complex": set()}
 
@@ -285,7 +288,12 @@ class EvTables:
             return self.fn("::token::Token::" + name[6:])
         if name.startswith("P.") and getattr(self, "_inline_parser", False) and name[2:] not in SCHEMA_FNS:
             return self.fn("::parser::Parser::" + name[2:])
+        if name.startswith("Lex.") and getattr(self, "_inline_lexer", False) and not name.endswith(("Tokenizer::new", "::next", "integer_or_float")):
+            c = [f for k, f in self.F.by_key.items() if f.evaluator == self.ev and "::tokenizer::" in k and k.endswith("::" + name[4:].split("::")[-1]) and f.kind != "Closure"]
+            return c[0] if len(c) == 1 else None
         if name.startswith(("P.", "Lex.")):
+            return None
+        if name.startswith("utils.") and name[6:] in UTILS_NAMED:
             return None
         if name.startswith("utils."):
             c = [f for k, f in self.F.by_key.items() if re.match(r"^utils::\w+::%s$" % re.escape(name[6:]), k) and f.kind != "Closure"]
@@ -313,6 +321,24 @@ class EvTables:
                 t = t2
         finally:
             self._inline_parser = False
+        self._cache[key] = t
+        return t
+
+    def lexer_term(self, f):
+        """Tokenizer::next with the tokenizer's own helper methods and utils helpers (look-ahead, skip, scanners) inlined"""
+        key = ("lexer_term", f.path)
+        if key in self._cache:
+            return self._cache[key]
+        t = self.fn_term(f, inline_pure=False)
+        self._inline_lexer = True
+        try:
+            for _ in range(4):
+                t2 = T.alpha(T.normalise(self.beta_all(self.inline_helpers(t))))
+                if t2 == t:
+                    break
+                t = t2
+        finally:
+            self._inline_lexer = False
         self._cache[key] = t
         return t
 
